@@ -107,6 +107,12 @@ def run_unit(unit, rng, ctx):
     if long_axis:
         res = res0
         res_mode = 'long_axis'
+    elif u < 0.13:
+        # L / resolution slightly below / above an integer (by 1e-8 .. 6e-4): floor(L / resolution) decides
+        k = int(rng.integers(2, 40))
+        delta = float(10.0 ** rng.uniform(-8, -3.2)) * float(rng.choice([-1.0, 1.0]))
+        res = float(lengths[int(rng.integers(3))] / (k + delta))
+        res_mode = 'near_integer_ratio'
     elif u < 0.33:
         k = int(rng.integers(1, 40))
         res = float(lengths[int(rng.integers(3))] / k)
